@@ -1,7 +1,7 @@
 //! C16 — recovery returns exactly the acknowledged persisted state.
 //!
 //! Every history (tenants to register, persist_* operations, clean restarts) is executed in a
-//! CHILD process (this binary re-executed) whose hook callback aborts the process at the K-th
+//! CHILD process (this binary re-executed) whose hook callback kills the process (SIGKILL) at the K-th
 //! hook point reached (`pm.<op>.after_quota|after_wal|after_storage`), for every K in turn, plus
 //! one run to the end.  The child logs one line per completed operation (acknowledged or
 //! refused).  The parent then opens the directory in its own (new) process, calls `recover`
@@ -94,6 +94,20 @@ fn apply(pm: &mut Option<PersistenceManager>, dir: &Path, op: &Op) -> bool {
 
 static HITS: AtomicU64 = AtomicU64::new(0);
 
+extern "C" {
+    fn kill(pid: i32, sig: i32) -> i32;
+    fn getpid() -> i32;
+}
+/// SIGKILL to ourselves: no handlers, no destructors, no flushing — a killed process
+fn die() -> ! {
+    unsafe {
+        kill(getpid(), 9);
+    }
+    loop {
+        std::thread::sleep(std::time::Duration::from_secs(1));
+    }
+}
+
 fn child(seed: u64, spec: &str) {
     let parts: Vec<&str> = spec.splitn(3, ':').collect();
     let idx: u64 = parts[0].parse().unwrap();
@@ -110,7 +124,7 @@ fn child(seed: u64, spec: &str) {
         let n = HITS.fetch_add(1, Ordering::SeqCst) + 1;
         if n == k {
             let _ = writeln!(log2.lock().unwrap(), "H {}", name);
-            std::process::abort();
+            die();
         }
     })));
     let mut pm = Some(open(&db));
@@ -203,7 +217,7 @@ fn main() {
     out.rule = "histories of 2..7 persist_* operations (create/delete/update of nodes and relationships over 3 tenants, \
                 ids 1..4 so that overwrites, deletions and updates of present entities are frequent, quotas 1..3 or none) \
                 and clean restarts, plus two stored witnesses; each history is run in a child process once to the end and \
-                once per hook point reached (the child aborts there); the parent recovers every tenant in a new process. \
+                once per hook point reached (the child is killed there with SIGKILL); the parent recovers every tenant in a new process. \
                 One case = (history, crash position). Non-trivial = the history has a crash or an update; distinct by case text."
         .to_string();
     let nh: u64 = if args.thorough { 300 } else { 22 };
